@@ -54,6 +54,9 @@ def apply(facts):
         if isinstance(x, dict):
             if x.get('k') == 'field' and x.get('adt') in table:
                 x['name'] = table[x['adt']].get(x['name'], x['name'])
+            if isinstance(x.get('fields'), list) and x.get('adt') in table:
+                # the field list of an aggregate (struct literal) of that type
+                x['fields'] = [table[x['adt']].get(n, n) if isinstance(n, str) else n for n in x['fields']]
             for v in x.values():
                 if isinstance(v, (dict, list)):
                     walk(v)
